@@ -83,7 +83,7 @@ func init() {
 		rule:   "one case = one simulated run: a script of 0..8 Write/WriteString calls of sizes 0..64KiB (one run in eight: 64 KiB..2 GiB, the total passing 2^31 and 2^32) over a fault-injecting wrapped writer, then Close, against 1..2 consumers of four temperaments, under a seeded schedule; non-trivial = at least one context switch where the running task could have continued, forced pre-emption or fired fault; distinct = distinct hash of the full event history",
 		assume: []string{"simulated channel semantics conform to the Go specification (simrt conformance suite)", "sampling, not proof: <=8 operations, <=2 consumers per run"},
 	}
-	worlds["laneworld"].probes = map[string][]string{"*": {"select.multi_ready", "non_positive_push_timeout", "task_pushes_a_task", "push_timeout_fired", "push_ctx_error", "cancel_while_push_in_flight", "cancel_with_tasks_pending", "hol_state_with_pinned_workers", "pending_exact_nonzero", "many_lanes", "concurrent_waiters", "long_history", "concurrent_recover_2plus", "headcount_checked", "clock.jump", "ctx.cancel_midrun", "ctx.deadline_fired", "ctx.cancel_before_gates",
+	worlds["laneworld"].probes = map[string][]string{"*": {"select.multi_ready", "non_positive_push_timeout", "task_pushes_a_task", "push_timeout_fired", "push_ctx_error", "cancel_while_push_in_flight", "cancel_with_tasks_pending", "hol_state_with_pinned_workers", "pending_exact_nonzero", "many_lanes", "concurrent_waiters", "nil_task_pushed", "long_history", "concurrent_recover_2plus", "headcount_checked", "clock.jump", "ctx.cancel_midrun", "ctx.deadline_fired", "ctx.cancel_before_gates",
 		"cancel_with_queue_goroutine_blocked_in_handover", "cancel_with_queue_goroutine_about_to_hand_over", "cancel_with_worker_idle", "cancel_with_queue_goroutine_idle",
 		"cancel_with_producer_blocked_on_full_lane", "cancel_with_producer_about_to_enqueue", "cancel_with_worker_mid_task"}}
 	worlds["progressworld"].probes = map[string][]string{"*": {"consumer_absent_until_close", "consumer_walked_away", "consumer_late", "consumer_slow", "stringwriter_path", "total_beyond_2GiB", "over_a_thousand_writes", "write.short", "write.error_partial", "write.error_zero"}}
@@ -120,7 +120,7 @@ func init() {
 	propWorld["C18"] = "fsworld"
 	worlds["httpworld"].probes = map[string][]string{
 		"C05": {"nested_request", "panic_unwinds_through_servehttp", "route_with_more_params_added_after_store_pooled", "pool.miss_with_items", "pool.stale_pick"},
-		"C15": {"panic_with_long_stack_trace", "zero_length_first_write", "abort_handler_panic", "unhashable_panic_value", "panic_storm", "body_via_io_copy", "flush_before_writing", "panic_before_writing", "panic_after_status", "panic_after_partial_body", "client.write_error", "pool.stale_pick"}}
+		"C15": {"panic_with_long_stack_trace", "zero_length_first_write", "abort_handler_panic", "unhashable_panic_value", "mounted_sub_router", "panic_storm", "body_via_io_copy", "flush_before_writing", "panic_before_writing", "panic_after_status", "panic_after_partial_body", "client.write_error", "pool.stale_pick"}}
 	propWorld["C05"] = "httpworld"
 	propWorld["C15"] = "httpworld"
 	worlds["logworld"].probes = map[string][]string{"*": {"clock_moves_between_records", "line_over_pool_limit", "message_over_pool_limit", "message_over_a_mebibyte", "message_needing_quotes", "line_near_pool_limit", "long_key_path", "group_name_reused", "empty_derivation", "siblings_of_derived_parent", "inline_group", "empty_group", "odd_key", "group_storm", "malformed_args", "below_threshold", "slow_write", "folded_compared", "pool.miss_with_items", "pool.stale_pick", "sink.short_write", "sink.write_error"}}
@@ -868,12 +868,12 @@ func checkProc(prop, tier string, seed uint64, runsOverride int, keep bool) int 
 		"assumptions": []string{"schedule forcing over real processes: the property-relevant order space (position of Done() relative to the launcher's steps; of Launch's return relative to the daemon's pre-Done work) is covered by four forced schedules; kernel micro-timing inside a forced order is not controlled", "the pause hook (build tag verif) only adds a wait; with the tag off it is an empty function"},
 		"coverage": map[string]any{
 			"evaluations": st.Launches, "distinct_nontrivial": st.Distinct,
-			"rule":                "one case = one daemon.Launch with three real processes under a forced schedule: S1 natural, S2 Done() delivered while the launcher is parked before it listens, S3 daemon parked before Done() (Launch must still be waiting after 150ms), S4 launcher released first and daemon 50ms later, S0 (a fault, about one group in five) the handler exits before Done() and the launches that follow in the same caller are the ones checked; 0..5 marker files written before Done(); the launcher process lingering 0, 3 or 40 ms between launch() returning and its exit; alone, 2..4 launches concurrently under forced schedules, or bursts of 2..8 natural-order launches of different handlers released together; distinct = distinct (schedule, markers, concurrency width); all are non-trivial (a forced or concurrent order)",
+			"rule":                "one case = one daemon.Launch with three real processes under a forced schedule: S1 natural, S2 Done() delivered while the launcher is parked before it listens, S3 daemon parked before Done() (Launch must still be waiting after 150ms), S4 launcher released first and daemon 50ms later, S5 one daemon per caller that takes seven seconds to reach Done() (alongside everything else), S0 (a fault, about one group in five) the handler exits before Done() and the launches that follow in the same caller are the ones checked; 0..5 marker files written before Done(); the launcher process lingering 0, 3 or 40 ms between launch() returning and its exit; alone, 2..4 launches concurrently under forced schedules, or bursts of 2..8 natural-order launches of different handlers released together; distinct = distinct (schedule, markers, concurrency width); all are non-trivial (a forced or concurrent order)",
 			"samples":             st.Samples,
 			"per_schedule":        st.PerKind,
 			"concurrent_launches": st.Concurrent,
 			"runs_per_hour":       int(float64(st.Launches) / wall * 3600),
-			"faults_fired":        map[string]int{"launcher.parked_before_listening": st.PerKind["S2"] + st.PerKind["S4"], "daemon.slow_before_done": st.PerKind["S3"] + st.PerKind["S4"], "daemon.exits_before_done": st.PerKind["S0"]},
+			"faults_fired":        map[string]int{"launcher.parked_before_listening": st.PerKind["S2"] + st.PerKind["S4"], "daemon.slow_before_done": st.PerKind["S3"] + st.PerKind["S4"], "daemon.exits_before_done": st.PerKind["S0"], "daemon.takes_seven_seconds": st.PerKind["S5"]},
 			"real_components":     []string{"daemon/daemon.go", "os/exec, os/signal, the Go runtime", "the kernel (fork/exec, SIGINT, reparenting)"},
 			"stub_components":     []string{"none: the order of the three processes is forced through gate files (one guarded pause hook in daemon.launch, harness code in the daemon's handler and in the caller)"},
 			"tree":                treeID(),
